@@ -43,6 +43,8 @@ if TYPE_CHECKING:
 
     from numpy import ndarray
 
+    from gemseo.typing import StrKeyMapping
+
 
 class _ProcessFlow(BaseProcessFlow):
     """The process flow."""
@@ -97,6 +99,7 @@ class MDOChain(ProcessDiscipline):
         super().__init__(disciplines, name=name)
         self._coupling_structure = None
         self._last_diff_inouts = None
+        self._disciplines_input_data = []
         self._initialize_grammars()
 
     def _initialize_grammars(self) -> None:
@@ -111,13 +114,24 @@ class MDOChain(ProcessDiscipline):
             self.io.output_grammar.update(discipline.io.output_grammar)
 
     def _execute(self) -> None:
+        # The input data of the disciplines are stored for the linearization:
+        # once a discipline is executed,
+        # the value of an input that is also one of its outputs is lost.
+        self._disciplines_input_data = []
         for discipline in self.disciplines:
-            self.io.data.update(discipline.execute(self.io.data))
+            data = self.io.data
+            self._disciplines_input_data.append({
+                name: data[name]
+                for name in discipline.io.input_grammar
+                if name in data
+            })
+            data.update(discipline.execute(data))
 
     def reverse_chain_rule(
         self,
         chain_outputs: Iterable[str],
         discipline: Discipline,
+        input_data: StrKeyMapping | None = None,
     ) -> None:
         """Chain the derivatives with a new discipline in the chain in reverse mode.
 
@@ -141,10 +155,14 @@ class MDOChain(ProcessDiscipline):
         Args:
             discipline: The new discipline to compose in the chain.
             chain_outputs: The outputs to lineariza.
+            input_data: The input data with which the discipline was executed.
+                If ``None``, use the current values of its input variables.
         """
         # TODO : only linearize wrt needed inputs/inputs
         # use coupling_structure graph path for that
-        last_cached = discipline.io.get_input_data()
+        last_cached = (
+            discipline.io.get_input_data() if input_data is None else input_data
+        )
         # The graph traversal algorithm avoid to compute unnecessary Jacobians
         discipline.linearize(last_cached, execute=False, compute_all_jacobians=False)
 
@@ -237,11 +255,21 @@ class MDOChain(ProcessDiscipline):
     ) -> None:
         self._compute_diff_in_outs(input_names, output_names)
 
+        # The data with which the disciplines were executed;
+        # the current value of an input variable of a discipline that is also
+        # one of its outputs is the output value.
+        if len(self._disciplines_input_data) == len(self.disciplines):
+            disciplines_input_data = self._disciplines_input_data
+        else:
+            disciplines_input_data = [
+                discipline.io.get_input_data() for discipline in self.disciplines
+            ]
+
         # Initializes self jac with copy of last discipline (reverse mode)
         last_discipline = self.disciplines[-1]
         # TODO : only linearize wrt needed inputs/inputs
         # use coupling_structure graph path for that
-        last_cached = last_discipline.io.get_input_data()
+        last_cached = disciplines_input_data[-1]
 
         # The graph traversal algorithm avoid to compute unnecessary Jacobians
         last_discipline.linearize(last_cached, execute=False)
@@ -251,9 +279,10 @@ class MDOChain(ProcessDiscipline):
             self.jac.setdefault(output_name, {})
 
         # reverse mode of remaining disciplines
-        remaining_disciplines = self.disciplines[:-1]
-        for discipline in remaining_disciplines[::-1]:
-            self.reverse_chain_rule(output_names, discipline)
+        for discipline, input_data in zip(
+            self.disciplines[-2::-1], disciplines_input_data[-2::-1]
+        ):
+            self.reverse_chain_rule(output_names, discipline, input_data)
 
         # Remove differentiations that should not be there,
         # because inputs are not inputs of the chain
